@@ -62,6 +62,10 @@ type Options struct {
 	ServiceLoops map[string]bool           // loop keys that are intentionally unbounded service loops (no variant obligation)
 	SeqCalls     bool                      // callers assume no other thread runs between a call and the callee's lock acquisition (locked(e) at call sites = pre-call state)
 	NoIndexCOV   bool                      // disable the change of variable for slice-index binders in spec quantifiers
+	// LenientNames: a clause that names an identifier the function no longer has (a renamed or
+	// removed local) is skipped with a note instead of rejecting the function; off when a baseline is
+	// recorded, so that a misspelt contract is never accepted silently
+	LenientNames bool
 }
 
 // lockHavoc records an owned field forgotten at a lock acquisition.
